@@ -2,7 +2,7 @@
 (***************************************************************************)
 (* C06: the public procedures as a table of signatures, and the set of     *)
 (* outcome classes a call may have.  A call is (procedure, arguments),     *)
-(* arguments drawn from a palette of 38 values of every kind with boundary *)
+(* arguments drawn from a palette of 40 values of every kind with boundary *)
 (* values.  The outcome of evaluating the call is one of                   *)
 (*     "ok" (a value), "err" (a reported error),                           *)
 (*     "panic", "abort", "timeout" (never allowed).                        *)
@@ -56,7 +56,9 @@ Palette == <<
   {"list", "pair"},                    \* 35 a quote form around a procedure: (list 'quote car)
   {"list", "pair"},                    \* 36 a list holding a macro value, a continuation and a closure
   {"vec"},                             \* 37 a vector holding a procedure
-  {"char"}                             \* 38 a numeric character outside ASCII (arabic-indic digit four)
+  {"char"},                            \* 38 a numeric character outside ASCII (arabic-indic digit four)
+  {"num", "int", "exact", "index"},    \* 39 2 (a small count, a valid radix)
+  {"num", "int", "exact", "index"}     \* 40 16 (a valid radix)
 >>
 NPal == Len(Palette)
 
